@@ -54,12 +54,20 @@ fn spec_of(s: &str) -> Option<Spec> {
 fn wire_send(s: &Spec) -> u16 { if s.server { s.proto ^ 0x8000 } else { s.proto } }
 fn wire_recv(s: &Spec) -> u16 { if s.server { s.proto } else { s.proto ^ 0x8000 } }
 
-fn rt() -> tokio::runtime::Runtime {
-    tokio::runtime::Builder::new_multi_thread().worker_threads(4).enable_all().build().expect("runtime")
+/// one multi-thread runtime for the whole process (building one per op costs more than the ops themselves)
+fn rt() -> &'static tokio::runtime::Runtime {
+    static RT: std::sync::OnceLock<tokio::runtime::Runtime> = std::sync::OnceLock::new();
+    RT.get_or_init(|| tokio::runtime::Builder::new_multi_thread().worker_threads(4).enable_all().build().expect("runtime"))
 }
 
-/// real plexers; returns what each agent dequeued (+ anything that arrived beyond the expected count)
-fn run_pair(specs: &[Spec], expected: &[usize]) -> Result<Vec<Vec<Vec<u8>>>, String> {
+const MARKER_PROTO: u16 = 0x7ffe;
+
+/// real plexers; returns what each agent dequeued (+ anything that arrived beyond the expected count).
+/// No clock decides the outcome: after the senders of a side have enqueued everything, a marker chunk is sent on a
+/// reserved protocol in the same direction; muxer queue, bearer and demuxer are FIFO, so when the marker arrives every
+/// earlier chunk has been routed to its queue, and a receiver whose `dequeue_chunk` is still pending after the marker has
+/// nothing more to get.
+fn run_pair(specs: &[Spec], _expected: &[usize]) -> Result<Vec<Vec<Vec<u8>>>, String> {
     let rt = rt();
     let res = rt.block_on(async {
         let (s0, s1) = UnixStream::pair().map_err(|e| e.to_string())?;
@@ -75,54 +83,80 @@ fn run_pair(specs: &[Spec], expected: &[usize]) -> Result<Vec<Vec<Vec<u8>>>, Str
             senders.push((i, tx));
             handles.push((i, rx));
         }
+        // markers: side s -> side 1-s
+        let mut marker_tx = vec![];
+        let mut marker_seen = vec![];
+        let mut marker_tasks = vec![];
+        for side in 0..2usize {
+            let tx = plex[side].subscribe_client(MARKER_PROTO);
+            let mut rx = plex[1 - side].subscribe_server(MARKER_PROTO);
+            let (wtx, wrx) = tokio::sync::watch::channel(false);
+            marker_tasks.push(tokio::spawn(async move { let _ = rx.dequeue_chunk().await; let _ = wtx.send(true); std::future::pending::<()>().await; drop(rx); }));
+            marker_tx.push(Some(tx));
+            marker_seen.push(wrx);   // marker_seen[side]: everything sent by `side` has been demuxed on the other side
+        }
         let [p0, p1] = plex;
         let running = [p0.spawn(), p1.spawn()];
-        let mut tasks = vec![];
+        let mut send_tasks: Vec<Vec<tokio::task::JoinHandle<Result<m1::AgentChannel, String>>>> = vec![vec![], vec![]];
         for (i, mut tx) in senders {
             let s = specs[i].clone();
-            tasks.push(tokio::spawn(async move {
+            send_tasks[s.side].push(tokio::spawn(async move {
                 let mut r = Rng::new(s.seed ^ 0x5eed);
                 for c in s.chunks {
                     for _ in 0..r.below(3) { tokio::task::yield_now().await; }
-                    if tx.enqueue_chunk(c).await.is_err() { return (i, Err("enqueue failed".to_string())); }
+                    if tx.enqueue_chunk(c).await.is_err() { return Err("enqueue failed".to_string()); }
                 }
-                // keep the handle alive until the run is over
-                (i, Ok((Some(tx), vec![])))
+                Ok(tx)
             }));
         }
+        let mut recv_tasks = vec![];
         for (i, mut rx) in handles {
-            let n = expected[i];
             let seed = specs[i].seed;
-            tasks.push(tokio::spawn(async move {
+            let mut seen = marker_seen[1 - specs[i].side].clone();
+            recv_tasks.push(tokio::spawn(async move {
                 let mut r = Rng::new(seed ^ 0xfeed);
-                let mut got = vec![];
-                for _ in 0..n {
+                let mut got: Vec<Vec<u8>> = vec![];
+                let mut marker = *seen.borrow();
+                loop {
                     if r.chance(1, 3) { tokio::task::yield_now().await; }
-                    match tokio::time::timeout(Duration::from_secs(4), rx.dequeue_chunk()).await {
-                        Ok(Ok(c)) => got.push(c),
-                        _ => break,
+                    if !marker {
+                        tokio::select! {
+                            biased;
+                            c = rx.dequeue_chunk() => match c { Ok(c) => got.push(c), Err(_) => break },
+                            _ = seen.changed() => { marker = true; }
+                        }
+                    } else {
+                        let mut progressed = false;
+                        for _ in 0..16 {
+                            match futures::poll!(std::pin::pin!(rx.dequeue_chunk())) {
+                                std::task::Poll::Ready(Ok(c)) => { got.push(c); progressed = true; break; }
+                                std::task::Poll::Ready(Err(_)) => break,
+                                std::task::Poll::Pending => tokio::task::yield_now().await,
+                            }
+                        }
+                        if !progressed { break; }
                     }
+                    if got.len() > 100_000 { break; }
                 }
-                // anything beyond the expected count is a leak / duplicate
-                while let Ok(Ok(c)) = tokio::time::timeout(Duration::from_millis(25), rx.dequeue_chunk()).await { got.push(c); if got.len() > n + 4 { break; } }
-                (i + 1000, Ok((Some(rx), got)))
+                (i, rx, got)
             }));
         }
-        let mut out: Vec<Vec<Vec<u8>>> = vec![vec![]; specs.len()];
         let mut keep = vec![];
         let mut err = None;
-        for t in tasks {
-            match t.await {
-                Ok((i, Ok((h, got)))) => { keep.push(h); if i >= 1000 { out[i - 1000] = got; } }
-                Ok((_, Err(e))) => err = Some(e),
-                Err(e) => err = Some(format!("task panicked: {e}")),
+        for side in 0..2usize {
+            for t in send_tasks[side].drain(..) {
+                match t.await { Ok(Ok(tx)) => keep.push(tx), Ok(Err(e)) => err = Some(e), Err(e) => err = Some(format!("task panicked: {e}")) }
             }
+            if let Some(mut tx) = marker_tx[side].take() { let _ = tx.enqueue_chunk(vec![0xAA]).await; keep.push(tx); }
         }
+        let mut out: Vec<Vec<Vec<u8>>> = vec![vec![]; specs.len()];
+        let all = async { for t in recv_tasks { match t.await { Ok((i, rx, got)) => { out[i] = got; keep.push(rx); } Err(e) => err = Some(format!("task panicked: {e}")) } } };
+        if tokio::time::timeout(Duration::from_secs(120), all).await.is_err() { err = Some("timeout".into()); }
         drop(keep);
+        for t in marker_tasks { t.abort(); }
         for r in running { r.abort().await; }
         match err { Some(e) => Err(e), None => Ok(out) }
     });
-    rt.shutdown_timeout(Duration::from_millis(200));
     res
 }
 
